@@ -666,13 +666,23 @@ def install(root, mounts, uid, plan, logfd):
             from collections import namedtuple
             Part = namedtuple('sdiskpart',
                               ['device', 'mountpoint', 'fstype', 'opts'])
-            table = [Part('/dev/vf%d' % i, m, 'ext4', 'rw')
-                     for i, m in enumerate(sorted(sh.mounts))]
-            order = plan.get('partition_order')
-            if order:
-                table = [Part('/dev/vf%d' % i, m, 'ext4', 'rw')
-                         for i, m in enumerate(order)]
-            psutil.disk_partitions = lambda all=False: list(table)
+            # the mount table as psutil shows it: disk_partitions() lists
+            # physical devices only, disk_partitions(all=True) everything
+            # (network / fuse / pseudo file systems included)
+            fst = plan.get('fstypes') or {}
+            order = plan.get('partition_order') or sorted(sh.mounts)
+            table = [Part('/dev/vf%d' % i, m, fst.get(m, 'ext4'), 'rw')
+                     for i, m in enumerate(order)]
+            pseudo = [Part('proc', posixpath.join(root, 'proc-like'), 'proc', 'rw'),
+                      Part('sysfs', posixpath.join(root, 'sys-like'), 'sysfs', 'rw')]
+            physical = ('ext2', 'ext3', 'ext4', 'xfs', 'vfat', 'ntfs', 'exfat',
+                        'f2fs', 'reiserfs', 'jfs', 'zfs', 'iso9660', 'hfsplus')
+
+            def disk_partitions(all=False):
+                if all:
+                    return list(table) + pseudo
+                return [p_ for p_ in table if p_.fstype in physical]
+            psutil.disk_partitions = disk_partitions
         except ImportError:
             pass
     if plan.get('passwd'):
